@@ -45,4 +45,5 @@ CONF = dict(
                  'server/port = last named ones or key-exchange host/123; NTP request goes to that socket with the issued cookie; own server: cookies contain the client\'s keys'),
     timeout_quick=900,
     timeout_thorough=3000,
+    min_cases={'ke.hist': 799, 'ke.own': 3, 'ke.quic': 1, 'ke.target': 14},
 )
